@@ -72,11 +72,11 @@ Init == /\ cred \in Creds /\ pc = "idle" /\ at = Home /\ referral = 0 /\ assume 
         /\ outcome = "none" /\ code = 0 /\ last = NoAnswer /\ logins = 0
 \* ---- what setPAData(cl, nil, ...) puts into the first request of an ASExchange call ------------------------------------------------
 \* the set of [ok, r]: ok = FALSE: no key for the chosen etype, nothing is sent
+AsCoded == IF assume THEN LET e == IF negotiated # 0 THEN negotiated ELSE Preferred IN {[ok |-> e \in KeyEtypes, r |-> PAReq(e, OwnSalt)]}
+                     ELSE {[ok |-> TRUE, r |-> NoPA]}
 Unsolicited ==
-  IF Faithful
-  THEN IF assume THEN LET e == IF negotiated # 0 THEN negotiated ELSE Preferred IN {[ok |-> e \in KeyEtypes, r |-> PAReq(e, OwnSalt)]}
-                 ELSE {[ok |-> TRUE, r |-> NoPA]}
-  ELSE {[ok |-> TRUE, r |-> NoPA]} \cup {[ok |-> TRUE, r |-> PAReq(e, OwnSalt)] : e \in KeyEtypes} \cup {[ok |-> FALSE, r |-> NoPA]}
+  IF Faithful THEN AsCoded
+  ELSE {[ok |-> TRUE, r |-> NoPA]} \cup {[ok |-> TRUE, r |-> PAReq(e, OwnSalt)] : e \in KeyEtypes} \cup {u \in AsCoded : ~u.ok}
 Finish(o, c, a) == /\ pc' = "idle" /\ outcome' = o /\ code' = c /\ last' = a /\ req' = NoPA
 Send(r, realm, stage) == /\ pc' = stage /\ req' = r /\ at' = realm /\ sends' = sends + 1 /\ UNCHANGED <<outcome, code, last>>
 \* ---- Login -------------------------------------------------------------------------------------------------------------------------
